@@ -213,7 +213,7 @@ def run(tier, seed):
         g = 0
         for c in cs:
             fn, cls = c["fn"], c["cls"]
-            for _ in range(n * 5 if cls == "equalNearQuarter" else n):
+            for _ in range(n * 5 if cls == "equalNearQuarter" else n * 2 if cls in ("large", "small", "generic") else n):
                 if fn in ("Fa", "Fb"):
                     args, ok = pair_fab(cls, rnd)
                 elif fn in ("FPZ", "FSZ", "FCWl"):
